@@ -51,3 +51,42 @@ Theorem C13_suffix : forall filled r r', rvv_suffix filled r = Ok r' ->
   (r = IS_OPTIONAL /\ r' = (if filled then IS_OPTIONAL_AND_FILLED else IS_OPTIONAL_AND_EMPTY)).
 Proof. exact suffix_table. Qed.
 Print Assumptions C13_suffix.
+
+(* ---- every schedule. Model/ValidateAsync.v writes validate_deep_anwendungshandbuch / validate_segment_group / validate_segment as task trees
+   (every asyncio.gather is a Par; parsing and evaluating a node's expression are arbitrary programs that may suspend, read their context and
+   gather again, but do not write context variables in the validating task itself). Whatever the order in which the tasks run, the report is
+   the one of the sequential model above (when several tasks raise: the leftmost exception, I-C12). *)
+From Ahb Require Import Model.Async Model.ValidateAsync Proofs.C13_async.
+
+Theorem C13_every_schedule_yields_the_sequential_report : forall (nx U : Type) (ir : nx -> text)
+    (parsep : nx -> prog (vv U)) (evalp : nx -> vv U -> prog (vv U)),
+  (forall x, no_put U (parsep x)) -> (forall x t, no_put U (evalp x t)) ->
+  forall (c : ctx (vv U)) (lines : list (node nx)) (soll : bool) (r : vv U),
+  steps (initial c (ahb_prog nx U ir parsep evalp lines soll)) (Done r) ->
+  r = VR (validate_ahb (nx' nx) (ev_of nx U parsep evalp c) (reason_of nx ir) (map (annot nx) lines) soll).
+Proof. exact ahb_every_schedule. Qed.
+Print Assumptions C13_every_schedule_yields_the_sequential_report.
+
+Theorem C13_order_once_under_every_schedule : forall (nx U : Type) (ir : nx -> text)
+    (parsep : nx -> prog (vv U)) (evalp : nx -> vv U -> prog (vv U)),
+  (forall x, no_put U (parsep x)) -> (forall x t, no_put U (evalp x t)) ->
+  forall (c : ctx (vv U)) (n : node nx) (parent : option rvv) (soll : bool) (rows : list (text * vres)),
+  steps (initial c (node_prog nx U ir parsep evalp n parent soll)) (Done (VR (Ok rows))) -> Visit (annot nx n) rows.
+Proof. exact visit_every_schedule. Qed.
+Print Assumptions C13_order_once_under_every_schedule.
+
+Theorem C13_validation_terminates_with_the_sequential_report : forall (nx U : Type) (ir : nx -> text)
+    (parsep : nx -> prog (vv U)) (evalp : nx -> vv U -> prog (vv U)),
+  (forall x, no_put U (parsep x)) -> (forall x t, no_put U (evalp x t)) ->
+  forall (c : ctx (vv U)) (lines : list (node nx)) (soll : bool),
+  steps (initial c (ahb_prog nx U ir parsep evalp lines soll))
+        (Done (VR (validate_ahb (nx' nx) (ev_of nx U parsep evalp c) (reason_of nx ir) (map (annot nx) lines) soll))).
+Proof. exact ahb_terminates. Qed.
+Print Assumptions C13_validation_terminates_with_the_sequential_report.
+
+Theorem C13_every_schedule_hypotheses_satisfiable :
+  let parsep := fun _ : nat => Yield (Ret (VTxt (U := unit) None)) in
+  let evalp := fun (_ : nat) (_ : vv unit) => Par [Yield (Get TEXTV (fun v => Ret v))] (fun rs => Ret (VA (Exn NotImpl))) in
+  (forall x, no_put unit (parsep x)) /\ (forall x t, no_put unit (evalp x t)).
+Proof. exact hypotheses_satisfiable. Qed.
+Print Assumptions C13_every_schedule_hypotheses_satisfiable.
